@@ -279,12 +279,12 @@ def uniform_refinement(image: darsia.Image, levels: int) -> darsia.Image:
                 slice_1 = i_slice(slice(1, None, 2))
 
                 # Determine weight for slice_0 elements
-                axis_length = image.img.shape[i]
+                axis_length = array.shape[i]
                 weight_0 = 0.5 * np.ones(array[slice_0].shape)
                 half_axis_length = int(np.floor(axis_length) / 2)
                 double_axis_length = 2 * half_axis_length
                 if axis_length % 2 == 1:
-                    weight_0[i_slice(slice(double_axis_length, None))] = 1
+                    weight_0[i_slice(slice(half_axis_length, None))] = 1
 
                 # The weight for slice_1 is constant
                 weight_1 = 0.5
